@@ -4,7 +4,14 @@
 T="$1"; L="$2"; J="${3:-8}"
 ARGS=$(grep -E "^(NMTOOLS_[A-Z_]+|CMAKE_BUILD_TYPE|CMAKE_CXX_FLAGS|BUILD_[A-Z_]+):" /repo/_build/CMakeCache.txt | sed -E 's/^([^:]+):([A-Z]+)=(.*)$/-D\1:\2=\3/' | grep -v INSTALL_DIR | tr '\n' ' ')
 cmake -G Ninja -S "$T" -B "$T/_build" $ARGS > "$L.cmake.log" 2>&1 || { echo CONFIGURE_FAILED; exit 2; }
-nice -n 10 cmake --build "$T/_build" -j"$J" > "$L.build.log" 2>&1; echo "BUILD_EXIT=$?" >> "$L.build.log"
+# ninja stops at the first failure; an OOM-killed compiler is not a real error: retry (incremental) a few times
+for try in 1 2 3 4; do
+  nice -n 10 cmake --build "$T/_build" -j"$J" > "$L.build.log" 2>&1; rc=$?
+  [ $rc -eq 0 ] && break
+  grep -q "Killed signal" "$L.build.log" || break
+  sleep 60
+done
+echo "BUILD_EXIT=$rc" >> "$L.build.log"
 ctest --test-dir "$T/_build" -j8 --timeout 900 > "$L.ctest.log" 2>&1; echo "CTEST_EXIT=$?" >> "$L.ctest.log"
 for b in tests/array/numeric-tests-doctest tests/meta/numeric-tests-doctest-meta tests/utility/numeric-tests-utility-doctest tests/utl/utl/numeric-tests-utl; do
   echo "$b: $("$T/_build/$b" 2>&1 | grep 'test cases' | tr -s ' ')" >> "$L.ctest.log"; done
